@@ -25,6 +25,20 @@ SEEDS = {
  'C10-s2': ('C10', 'Subject::notify keeps its snapshot in a reused member vector', 're-entrant notify from a callback after a membership change'),
  'C10-s3': ('C10', 'operands of the post-call check reordered: !observer->isValid() && isSubscriptionIdValid(id)', 'a callback that unsubscribes its own subscription'),
  'C15-sC': ('C15', 'ThreadPool::clear() gains an unlocked early exit on m_queue.size() == 0', 'clear() while workers are dequeuing'),
+ 'C06-s1': ('C06', 'Node::notify regex loop: static_cast<Args>(args)... replaced by std::forward<Args>(args)...', 'a regex / wildcard level with two or more matching sibling keys that hold a subject, a by-value class signature and an rvalue argument: the second receiver gets a moved-from value'),
+ 'C06-s2': ('C06', 'lookupNode: insert replaced by lower_bound + emplace_hint with the operands of key_comp swapped', 'sibling keys subscribed in non-ascending order (or re-subscribed after a shrink): the subscription lands in the next greater sibling'),
+ 'C07-s1': ('C07', 'PooledRunnable::run: the stopped check moved below the locked block, after the task was taken from the queue', 'stop() while the queue is non-empty and a worker is busy: a task is taken, neither run nor deleted'),
+ 'C07-s2': ('C07', 'ThreadPool::clear() unlocks the queue mutex around each task destructor (front / unlock / delete / lock / pop_front)', 'clear() racing with a worker that becomes idle during a task destructor: the task is run while destroyed and deleted twice'),
+ 'C11-s1': ('C11', 'Resource::select() no longer resets m_upperUnlockBound when the resource becomes idle', 'a first busy period in which a request queued, then idle, then a writer arriving during a delivery: the stale bound admits it at once'),
+ 'C11-s2': ('C11', 'ConcurrentSubjectRouter::notify gains a thread_local re-entrancy counter and delivers without locking when it is non-zero', 'a callback that throws (the counter is not restored), then a later notify from the same thread overlapping a writer'),
+ 'C12-s1': ('C12', 'Resource::lock fast path tests m_idCounter == 0 instead of m_queue.empty()', 'something queued and was admitted and still holds; then another reader arrives with no writer around: it parks'),
+ 'C12-s2': ('C12', 'Resource::enqueue looks at m_queue.front() instead of back() for a read batch to join', 'two or more readers queue behind a writer that is itself still queued: they are admitted one at a time'),
+ 'C13-s1': ('C13', 'Node::exists: the isLeaf() return moved in front of the matches(m_name) check', 'a pattern whose LAST level is a regex that matches no child of a parent that has children'),
+ 'C13-s2': ('C13', 'Node::isEmpty loops over the children and keeps only the last child\'s verdict', 'a child the pattern did not walk into, with no own subscription, a live key below it and a dead sibling that sorts last'),
+ 'C17-s1': ('C17', 'File::read text branch: isEOF becomes char c = fgetc(); return c == EOF', 'Mode::ReadText and a 0xFF byte in the content'),
+ 'C17-s2': ('C17', 'File::read: the two seek(0, Start) calls replaced by one in front of the allocation', 'Mode::ReadText with the stream not at position 0 when read()/readStr() is called'),
+ 'C18-s1': ('C18', 'Path::join: the "p1 ends with a separator" fast path moved in front of the "p2 is absolute" check', 'left operand ends with a separator AND right operand is absolute'),
+ 'C18-s2': ('C18', 'Path::listChildren: the "." / ".." filter tests only the first two characters', 'a directory entry whose name starts with two dots (filesystem clause: outside the claimed part of C18)'),
 }
 rows = []
 for sid, (prop, what, needs) in SEEDS.items():
@@ -41,7 +55,7 @@ for sid, (prop, what, needs) in SEEDS.items():
     detected = ce == 1 and bool(viol)
     confirmed = any('no-failing-input-found' not in v for v in viol)
     meta = {'seed': sid, 'property_broken': prop, 'change': what, 'needs_to_manifest': needs,
-            'confirmed_by_me': run, 'ran': 'tools/seedtest.sh (applies the patch in the sub-agent\'s scratch worktree, builds, runs the unedited test suite, '
+            'confirmed_by_me': run, 'ran': 'tools/seedtest.sh / tools/seedcheck.sh (applies the patch in the sub-agent\'s scratch worktree, builds, runs the unedited test suite, '
             'compiles and runs the demonstration with and without the patch, then ./check %s with TULZ_REPO pointing at the patched worktree, then reverts)' % prop,
             'check_exit': ce, 'detected': detected, 'native_replay_confirmed': confirmed,
             'failed_obligations': sorted(set('%s: %s' % (o[1], o[3]) for o in obl))[:8], 'undecided': undecided[:1]}
